@@ -8,6 +8,7 @@ import Verif.C01.IxLexer
 import Verif.C01.LayoutSpec
 import Verif.C01.Docs
 import Verif.C01.IxLayout
+import Verif.C01.MrxText
 open Lean Verif.Proto Verif.Codec Verif.C01
 
 namespace Verif.C01.Driver
@@ -179,10 +180,14 @@ def jsonList (o : Opts) (ms : List MRS) : Json :=
                                       | some rs => jList jMRS rs
                                       | none => jErr "Exception")]
 
-def mrxList (o : Opts) (ms : List MRS) : Json :=
+def mrxTexts (off n : Nat) (x : Xml) : List (String × Json) :=
+  [("text", cps (MrxT.mrxText none off x)), ("textind", cps (MrxT.mrxText (some 0) off x)),
+   ("textindn", cps (MrxT.mrxText (some n) off x))]
+
+def mrxList (o : Opts) (n : Nat) (ms : List MRS) : Json :=
   if !(ms.all mrxEncodable) then jErr "ValueError" else
   let x := toXmlList o ms
-  Json.mkObj [("xml", jXml x), ("dec", match ofXmlList x with
+  Json.mkObj (mrxTexts 1 n x ++ [("xml", jXml x), ("dec", match ofXmlList x with
                                        | some rs => jList jMRS rs
                                        | none => jErr "Exception"),
               -- `loads` of a single-item text (`encode`): the root is the `mrs` element itself
@@ -190,14 +195,14 @@ def mrxList (o : Opts) (ms : List MRS) : Json :=
                        | m :: _ => (match ofXmlList (toXml o m) with
                                     | some rs => jList jMRS rs
                                     | none => jErr "Exception")
-                       | [] => Json.null)]
+                       | [] => Json.null)])
 
 def indexedList (semi : Ix.SemI) (o : Opts) (n : Nat) (ms : List MRS) : Json :=
   match ms.mapM (Ix.toksIx semi o) with
   | .error e => jErr (eiName e)
   | .ok tss =>
     let ts := tss.flatten
-    Json.mkObj [("toks", jToksI ts), ("text", cps (Lex.joinStr [' '] (tss.map IxLex.renderIx))),
+    Json.mkObj [("toks", jToksI ts), ("text", cps (IxLex.renderIxDoc ts)),
                 ("textind", cps (IxLex.renderIxInd 2 ts)), ("textindn", cps (IxLex.renderIxInd n ts)),
                 ("dec", match Ix.parseManyIx semi (ts.length + 1) ts with
                         | .ok ds => jList jMRS ds
@@ -253,16 +258,17 @@ def handle (j : Json) : Except String Json := do
   | "mrx" => do
     let ms ← getMs j
     let o ← getOpts j
-    let l := ms.map (mrxList o)
+    let n := (match j.getObjVal? "n" with | .ok v => (v.getNat?.toOption.getD 3) | .error _ => 3)
+    let l := ms.map (mrxList o n)
     match (← firstM j ms) with
     | none => pure (withList (Json.mkObj [("empty", Json.bool true)]) l)
     | some m =>
     if !mrxEncodable m then pure (withList (jErr "ValueError") l) else
     let x := toXml o m
     match ofXml x with
-    | none => pure (withList (Json.mkObj [("xml", jXml x), ("dec", jErr "Exception")]) l)
-    | some r => pure (withList (Json.mkObj [("xml", jXml x), ("dec", jMRS r),
-                                   ("rexml", if mrxEncodable r then jXml (toXml o r) else jErr "ValueError")]) l)
+    | none => pure (withList (Json.mkObj (mrxTexts 0 n x ++ [("xml", jXml x), ("dec", jErr "Exception")])) l)
+    | some r => pure (withList (Json.mkObj (mrxTexts 0 n x ++ [("xml", jXml x), ("dec", jMRS r),
+                                   ("rexml", if mrxEncodable r then jXml (toXml o r) else jErr "ValueError")])) l)
   | "indexed" => do
     let ms ← getMs j
     let o ← getOpts j
